@@ -657,6 +657,19 @@ func (e *Eval) evalCall(n *ECall) tv {
 			e.fail("typeid: unknown type %s", s.V)
 		}
 		return tv{I(int64(vc.eng.typeID(t))), nil}
+	case "isNotExist":
+		// the predicate os.IsNotExist(err) as modelled by the engine
+		vc.declareFun("err_notexist", []Sort{SInt}, SBool)
+		a := e.leaf(n.Args[0])
+		return tv{And(Not(Eq(a, I(0))), app(SBool, "err_notexist", a)), nil}
+	case "hasSuffix":
+		vc.declareFun("str_hassuffix", []Sort{SInt, SInt}, SBool)
+		if !vc.decl["str_suffix_ax"] {
+			vc.decl["str_suffix_ax"] = true
+			vc.declareFun("str_concat", []Sort{SInt, SInt}, SInt)
+			vc.sigs = append(vc.sigs, "(assert (forall ((a Int) (b Int)) (! (str_hassuffix (str_concat a b) b) :pattern ((str_concat a b)))))")
+		}
+		return tv{app(SBool, "str_hassuffix", e.leaf(n.Args[0]), e.leaf(n.Args[1])), nil}
 	case "boxed":
 		// boxed("pkg.emptyStructType"): the interface value holding that empty struct
 		s, ok := n.Args[0].(*EStr)
